@@ -477,7 +477,7 @@ func (rf *RecFacts) where(pos token.Pos) string {
 // option only changes the first letter).
 func goRecClass(goName string) string {
 	switch strings.ToLower(goName) {
-	case "sta", "ste", "str", "stm", "stw", "stx", "stv", "stf", "stbig", "lowst", "ist", "ibs", "ubs", "ube", "ubt":
+	case "sta", "ste", "str", "stm", "stw", "stx", "stv", "stf", "stbig", "stn", "lowst", "ist", "ibs", "ubs", "ube", "ubt":
 		return "struct"
 	case "msa", "mse", "ims", "ubm":
 		return "message"
@@ -492,6 +492,8 @@ func goRecClass(goName string) string {
 // fields only (spec widths: int32 4, float64 8, uint64 8, guid 16, date 8).
 func goRecFixed(goName string) (int, bool) {
 	switch strings.ToLower(goName) {
+	case "stn":
+		return 9, true
 	case "stf":
 		return 12, true
 	case "stbig":
